@@ -176,6 +176,9 @@ pub enum Mode {
     Scalar,
     Bar,
     Item,
+    /// every tick goes through one of the three paths, chosen by a hash of the tick itself (the same
+    /// choice for subject and reference): one instance sees `Next<f64>` and `Next<&T>` calls mixed
+    Mixed,
 }
 
 #[derive(Clone, Copy, PartialEq, Debug, Serialize, Deserialize)]
@@ -348,6 +351,12 @@ impl dyn Sut {
     /// feed one tick in the given mode. Item mode falls back to Bar when the builder rejects the bar
     /// (returns the mode actually used).
     pub fn feed(&mut self, mode: Mode, x: &Input) -> (Out, Mode) {
+        let mode = if mode == Mode::Mixed {
+            let h = x.c.to_bits().wrapping_mul(0x9E37_79B9_7F4A_7C15) ^ x.v.to_bits().rotate_left(17) ^ x.h.to_bits().rotate_left(31);
+            [Mode::Scalar, Mode::Bar, Mode::Item][((h >> 29) % 3) as usize]
+        } else {
+            mode
+        };
         match mode {
             Mode::Scalar => match self.feed_scalar(x.c) {
                 Some(o) => (o, Mode::Scalar),
@@ -358,6 +367,7 @@ impl dyn Sut {
                 Some(it) => (self.feed_item(&it), Mode::Item),
                 None => (self.feed_bar(&Bar(*x)), Mode::Bar),
             },
+            Mode::Mixed => unreachable!(),
         }
     }
 }
